@@ -5,6 +5,7 @@ mod ctx;
 mod rng;
 mod refimpl;
 mod gen;
+mod p01;
 mod p02;
 mod p03;
 mod p04;
@@ -72,6 +73,7 @@ fn main() {
     ctx::start_watchdog(out.clone(), cpu_budget);
     let mut c = Ctx::new(&prop, tier, seed, shard, nshards, scale, &mode, time_limit, replay, out);
     match prop.as_str() {
+        "C01" => p01::run(&mut c),
         "C02" => p02::run(&mut c),
         "C03" => p03::run(&mut c),
         "C04" => p04::run(&mut c),
